@@ -50,6 +50,18 @@ Because `ordinal_list` and `trunk_vlans_allowed` are modelled through C15's `Ccp
 `Ccp.Range.parse`, the scan sets of `CiscoIOSInterface.parse_single_interface` (with `parse_intf_short` / `parse_intf_long`)
 and of `CiscoRange.__init__ / parse_integers` are conjuncts here as well: an edit of those breaks C19's obligation
 together with C15's / C14's, as it should.
+
+**Scan sets as revised.**  The lists below contain only what identifies the regex / separator a scanner was written
+for: regex-engine calls (`re.*`, methods of compiled patterns, the `re_*` helpers of the package) with the pattern in
+*canonical form* — canonical verbose form and no VERBOSE flag for a pattern compiled with `re.VERBOSE`; group names
+removed (`(?P<n>…)` is written `(…)`, `(?P=n)` by number); redundant escapes removed (`\:` is `:`); a pattern handed to a
+same-file helper as an argument, or built from a local name that ranges over a constant collection, reported once per
+value; a search that cannot fail (`.*`) not reported — with the flags and, for `re.sub`, the replacement; and the
+separator arguments of `str.split / rsplit / partition / rpartition / join / replace / strip / splitlines`.  The literal
+tests (`"lit" in …`, comparisons with string literals and their subscripts, `str.startswith / endswith / find …`) that
+earlier versions of these lists contained are now the INFORMATIONAL definitions `Gen.rx…Info`: no theorem is about
+them, so reading a regex group into a local, hoisting a `.split()`, merging branches or renaming a group does not break
+an obligation.  Where the text above speaks of such a test as part of a scan set, read: part of `…Info`.
 -/
 namespace Ccp.RxC19
 
@@ -58,55 +70,42 @@ source for which the model contains a hand-written scanner has the text that sca
 are named `regexes_as_modelled__<definition>`, so that a failing build names the constant that was edited.) -/
 theorem regexes_as_modelled :
     Gen.rxIos_IOSIntfLine_is_object_for =
-      [("==", "interface", "[0]"),
-       ("str.split()", "", "")] ∧
+      [("str.split()", "", "")] ∧
     Gen.rxIos_IOSIntfLine_is_intf =
-      [("==", " ", "[10]"),
-       ("==", "interface ", "[0:10]")] ∧
+      [] ∧
     Gen.rxIos_IOSIntfLine_is_in_portchannel =
       [(".re_match_iter_typed", "^\\s*channel-group\\s+(\\d+)", "")] ∧
     Gen.rxIos_IOSIntfLine_portchannel_number =
       [(".re_match_iter_typed", "^\\s*channel-group\\s+(\\d+)", "")] ∧
     Gen.rxIos_IOSIntfLine_is_portchannel_intf =
-      [("lit in", "channel", ""),
-       ("str.join", " ", ""),
+      [("str.join", " ", ""),
        ("str.split()", "", "")] ∧
     Gen.rxIos_IOSIntfLine_name =
       [("str.join", " ", ""),
        ("str.split()", "", "")] ∧
     Gen.rxIos_IOSIntfLine_cisco_interface_object =
-      [("==", " ", "[10]"),
-       ("==", "interface ", "[0:10]"),
-       ("str.join", "", ""),
+      [("str.join", "", ""),
        ("str.split()", "", "")] ∧
     Gen.rxIos_IOSIntfLine_port_type =
       [(".re_match", "^interface\\s+([A-Za-z\\-]+)", "")] ∧
     Gen.rxIos_IOSIntfLine_interface_number =
-      [(".re_match", "^interface\\s+[A-Za-z\\-]+\\s*(\\d+.*?)(\\.\\d+)*(\\s\\S+)*\\s*$", ""),
-       ("==", " ", "[10]"),
-       ("==", "interface ", "[0:10]")] ∧
+      [(".re_match", "^interface\\s+[A-Za-z\\-]+\\s*(\\d+.*?)(\\.\\d+)*(\\s\\S+)*\\s*$", "")] ∧
     Gen.rxIos_IOSIntfLine_subinterface_number =
-      [(".re_match", "^interface\\s+[A-Za-z\\-]+\\s*(\\d+.*?\\.?\\d?)(\\s\\S+)*\\s*$", ""),
-       ("==", " ", "[10]"),
-       ("==", "interface ", "[0:10]")] ∧
+      [(".re_match", "^interface\\s+[A-Za-z\\-]+\\s*(\\d+.*?\\.?\\d?)(\\s\\S+)*\\s*$", "")] ∧
     Gen.rxIos_IOSIntfLine_description =
       [(".re_match_iter_typed", "^\\s*description\\s+(\\S.*)$", "")] ∧
     Gen.rxIos_IOSIntfLine_ipv4_addr =
       [(".re_match_iter_typed", "^\\s+ip\\s+address\\s+(\\d+\\.\\d+\\.\\d+\\.\\d+)\\s+\\d+\\.\\d+\\.\\d+\\.\\d+\\s*$", ""),
        (".re_match_iter_typed", "^\\s+ip\\s+address\\s+(dhcp)\\s*$", ""),
-       (".re_match_iter_typed", "^\\s+ip\\s+address\\s+(negotiated)\\s*$", ""),
-       ("==", "dhcp", ""),
-       ("==", "negotiated", "")] ∧
+       (".re_match_iter_typed", "^\\s+ip\\s+address\\s+(negotiated)\\s*$", "")] ∧
     Gen.rxIos_IOSIntfLine_ipv4_netmask =
       [(".re_match_iter_typed", "^\\s+ip\\s+address\\s+\\d+\\.\\d+\\.\\d+\\.\\d+\\s+(\\d+\\.\\d+\\.\\d+\\.\\d+)\\s*$", "")] ∧
     Gen.rxIos_IOSIntfLine_ipv4_addr_object =
-      [(".re_match_iter_typed", "^\\s+ip\\s+address\\s+(?P<v4addr>\\S+)\\s+(?P<v4netmask>\\d+\\.\\d+\\.\\d+\\.\\d+)\\s*$", ""),
-       ("==", "dhcp", "['v4addr']"),
-       ("==", "negotiated", "['v4addr']")] ∧
+      [(".re_match_iter_typed", "^\\s+ip\\s+address\\s+(\\S+)\\s+(\\d+\\.\\d+\\.\\d+\\.\\d+)\\s*$", "")] ∧
     Gen.rxIos_IOSIntfLine_ip_secondary_addresses =
-      [(".re_match_iter_typed", "^\\s*ip\\s+address\\s+(?P<secondary>\\S+\\s+\\S+)\\s+secondary\\s*$", "")] ∧
+      [(".re_match_iter_typed", "^\\s*ip\\s+address\\s+(\\S+\\s+\\S+)\\s+secondary\\s*$", "")] ∧
     Gen.rxIos_IOSIntfLine_ip_secondary_networks =
-      [(".re_match_iter_typed", "^\\s*ip\\s+address\\s+(?P<secondary>\\S+\\s+\\S+)\\s+secondary\\s*$", "")] ∧
+      [(".re_match_iter_typed", "^\\s*ip\\s+address\\s+(\\S+\\s+\\S+)\\s+secondary\\s*$", "")] ∧
     Gen.rxIos_IOSIntfLine_vrf =
       [(".re_match_iter_typed", "^\\s*(ip\\s+)*vrf\\sforwarding\\s(\\S+)$", "")] ∧
     Gen.rxIos_IOSIntfLine_manual_mtu =
@@ -116,64 +115,37 @@ theorem regexes_as_modelled :
     Gen.rxIos_IOSIntfLine_is_shutdown =
       [(".re_match_iter_typed", "^\\s*(shut\\S*)\\s*$", "")] ∧
     Gen.rxIos_IOSIntfLine_is_switchport =
-      [("==", "switchport", "[0]"),
-       ("str.split()", "", "")] ∧
+      [("str.split()", "", "")] ∧
     Gen.rxIos_IOSIntfLine_has_manual_switch_access =
-      [("==", "['switchport','mode','access']", "[0:3]"),
-       ("str.split()", "", "")] ∧
+      [("str.split()", "", "")] ∧
     Gen.rxIos_IOSIntfLine_has_manual_switch_trunk =
-      [("==", "['switchport','mode','trunk']", "[0:3]"),
-       ("str.split()", "", "")] ∧
+      [("str.split()", "", "")] ∧
     Gen.rxIos_IOSIntfLine_access_vlan =
-      [("==", "['switchport','access','vlan']", "[0:3]"),
-       ("==", "switchport", "[0]"),
-       ("str.split()", "", "")] ∧
+      [("str.split()", "", "")] ∧
     Gen.rxIos_IOSIntfLine_native_vlan =
-      [("==", "['switchport','trunk','native','vlan']", "[0:4]"),
-       ("==", "switchport", "[0]"),
-       ("str.split()", "", "")] ∧
+      [("str.split()", "", "")] ∧
     Gen.rxIos_IOSIntfLine_trunk_vlans_allowed =
-      [(".re_match_typed", "^\\s+switchport\\s+trunk\\s+allowed\\s+vlan\\s+(all|none|\\d[\\d\\-\\,\\s]*)$", ""),
-       (".re_match_typed", "^\\s+switchport\\s+trunk\\s+allowed\\s+vlan\\s+add\\s+(\\d[\\d\\-\\,\\s]*)$", ""),
-       (".re_match_typed", "^\\s+switchport\\s+trunk\\s+allowed\\s+vlan\\s+except\\s+(\\d[\\d\\-\\,\\s]*)$", ""),
-       (".re_match_typed", "^\\s+switchport\\s+trunk\\s+allowed\\s+vlan\\s+remove\\s+(\\d[\\d\\-\\,\\s]*)$", ""),
-       ("==", "['switchport','mode','access']", "[0:3]"),
-       ("==", "['switchport','trunk','allowed','vlan','add']", "[0:5]"),
-       ("==", "['switchport','trunk','allowed','vlan','except']", "[0:5]"),
-       ("==", "['switchport','trunk','allowed','vlan','remove']", "[0:5]"),
-       ("==", "['switchport','trunk','allowed','vlan']", "[0:4]"),
-       ("==", "_nomatch_", ""),
-       ("==", "_nomatch_", "['allowed']"),
-       ("==", "add", ""),
-       ("==", "all", ""),
-       ("==", "allowed", ""),
-       ("==", "except", ""),
-       ("==", "none", ""),
-       ("==", "remove", ""),
-       ("==", "switchport", "[0]"),
-       ("re.search", "^\\d[\\d\\-\\,\\s]*", ""),
+      [(".re_match_typed", "^\\s+switchport\\s+trunk\\s+allowed\\s+vlan\\s+(all|none|\\d[\\d\\-,\\s]*)$", ""),
+       (".re_match_typed", "^\\s+switchport\\s+trunk\\s+allowed\\s+vlan\\s+add\\s+(\\d[\\d\\-,\\s]*)$", ""),
+       (".re_match_typed", "^\\s+switchport\\s+trunk\\s+allowed\\s+vlan\\s+except\\s+(\\d[\\d\\-,\\s]*)$", ""),
+       (".re_match_typed", "^\\s+switchport\\s+trunk\\s+allowed\\s+vlan\\s+remove\\s+(\\d[\\d\\-,\\s]*)$", ""),
+       ("re.search", "^\\d[\\d\\-,\\s]*", ""),
        ("str.split()", "", "")] ∧
     Gen.rxIos_IOSRouteLine_is_object_for =
-      [("==", "ip route ", "[0:9]"),
-       ("==", "ipv6 route ", "[0:11]")] ∧
+      [] ∧
     Gen.rxIos_IOSRouteLine_init =
-      [("lit in", "ipv6", "[0:4]"),
-       ("re.search", "^ip\\s+route(?:\\s+(?:vrf\\s+(?P<vrf>\\S+)))?\\s+(?P<prefix>\\d+\\.\\d+\\.\\d+\\.\\d+)\\s+(?P<netmask>\\d+\\.\\d+\\.\\d+\\.\\d+)(?:\\s+(?P<nh_intf>[^\\d]\\S+))?(?:\\s+(?P<nh_addr>\\d+\\.\\d+\\.\\d+\\.\\d+))?(?:\\s+(?P<dhcp>dhcp))?(?:\\s+(?P<global>global))?(?:\\s+(?P<ad>\\d+))?(?:\\s+(?P<mcast>multicast))?(?:\\s+name\\s+(?P<name>\\S+))?(?:\\s+(?P<permanent>permanent))?(?:\\s+track\\s+(?P<track>\\d+))?(?:\\s+tag\\s+(?P<tag>\\d+))?", "VERBOSE")] ∧
+      [("re.search", "^ip\\s+route(?:\\s+(?:vrf\\s+(\\S+)))?\\s+(\\d+\\.\\d+\\.\\d+\\.\\d+)\\s+(\\d+\\.\\d+\\.\\d+\\.\\d+)(?:\\s+([^\\d]\\S+))?(?:\\s+(\\d+\\.\\d+\\.\\d+\\.\\d+))?(?:\\s+(dhcp))?(?:\\s+(global))?(?:\\s+(\\d+))?(?:\\s+(multicast))?(?:\\s+name\\s+(\\S+))?(?:\\s+(permanent))?(?:\\s+track\\s+(\\d+))?(?:\\s+tag\\s+(\\d+))?", "")] ∧
     Gen.rxIntfParse =
-      [("lit in", ",", ""),
-       ("re.search", "(?P<interface_class>\\s+[a-zA-Z\\-]+)$", ""),
-       ("re.search", ".*", ""),
-       ("re.search", "\\.(?P<subinterface>\\d+)", ""),
-       ("re.search", "\\:(?P<channel>\\d+)", ""),
-       ("re.search", "^(?P<prefix>[a-zA-Z\\-\\s]*)(?P<port_subinterface_channel>[\\d\\:\\.^\\-^a-z^A-Z^\\s]+)(?P<interface_class>\\s+[a-zA-Z\\-]+){0,1}$", ""),
-       ("re.search", "^(?P<prefix>[a-zA-Z\\-\\s]*)(?P<slot_card_port_subinterface_channel>[\\d\\:\\.\\/^\\-^a-z^A-Z^\\s]+)(?P<interface_class>\\s+[a-zA-Z\\-]+){0,1}$", ""),
-       ("re.search", "^(?P<slot>\\d+)(?P<sep1>[^\\:^\\.^\\-^\\s^\\d^a-z^A-Z])?(?P<card>\\d+)?(?P<sep2>[^\\:^\\.^\\-^\\s^\\d^a-z^A-Z])?(?P<port>\\d+)?", ""),
-       ("re.search", "^\\D*(?P<port>\\d+)", ""),
+      [("re.search", "(\\s+[a-zA-Z\\-]+)$", ""),
+       ("re.search", ":(\\d+)", ""),
+       ("re.search", "\\.(\\d+)", ""),
+       ("re.search", "^([a-zA-Z\\-\\s]*)([\\d:./^\\-^a-z^A-Z^\\s]+)(\\s+[a-zA-Z\\-]+){0,1}$", ""),
+       ("re.search", "^([a-zA-Z\\-\\s]*)([\\d:.^\\-^a-z^A-Z^\\s]+)(\\s+[a-zA-Z\\-]+){0,1}$", ""),
+       ("re.search", "^(\\d+)([^:^.^\\-^\\s^\\d^a-z^A-Z])?(\\d+)?([^:^.^\\-^\\s^\\d^a-z^A-Z])?(\\d+)?", ""),
+       ("re.search", "^\\D*(\\d+)", ""),
        ("re.split", "\\s+", "")] ∧
     Gen.rxRangeIntegers =
-      [("lit in", ",,", ""),
-       ("lit in", "-", ""),
-       ("str.join", "", ""),
+      [("str.join", "", ""),
        ("str.split", ",", ""),
        ("str.split", "-", "")] := by
   refine ⟨?regexes_as_modelled__rxIos_IOSIntfLine_is_object_for,
